@@ -30,12 +30,14 @@ def run(prop, tier, verdict):
         core = [c for c in cells if c['pipe'] == '' and c['gor'] == 4 and c['size'] == 255]
         rest = [c for c in cells if c not in core]
         sel = core + core + rnd.sample(rest, 110)
+        # the barrier profile (32 goroutines released together on one session): raw and json protocols, always included
+        sel += [c for c in cells if c.get('barrier') and c['pipe'] == '' and c['codec'] == 'j' and c['proto'] in ('raw', 'pb')]
         ops = 10
     scen = []
     for i, c in enumerate(sel):
         c = dict(c)
         c['id'] = 'w%d' % i
-        c['ops'] = ops if c['size'] < 70000 else 3
+        c['ops'] = (ops if c['size'] < 70000 else 3) if not c.get('barrier') else 60
         scen.append(c)
     scfile = os.path.join(wd, 'scen.ndjson')
     with open(scfile, 'w') as f:
